@@ -398,6 +398,46 @@ def override_of_inner_binding(ctx, i):
     ctx.case({"override": True, "equal": start == bound_before, "n": len(items), "r": runner_kind}, True)
 
 
+def handler_object_reuse(ctx, i):
+    """A multi-output interrupt (optionally emitting a signal) whose handler returns THE SAME dict object on every
+    call: repeated runs must give equal results and the handler's object must stay as it was."""
+    from hypergraph import AsyncRunner, FunctionNode, Graph, InterruptNode
+
+    rng = ctx.rng
+    rt.reset_program()
+    answer = {"a": "A", "b": "B"}
+    before = dict(answer)
+    hid, uid = "hreuse/ask", "hreuse/use"
+    hfn = rt.make_function("ask", hid, [{"n": "x"}], is_async=rng.random() < 0.5)
+    rt.KIND[hid] = "int"
+    rt.BEH[hid] = lambda kw: answer
+    ufn = rt.make_function("use", uid, [{"n": "a"}, {"n": "b"}])
+    rt.KIND[uid] = "fn"
+    rt.BEH[uid] = lambda kw: tuple(sorted(kw.items()))
+    emit = "asked" if rng.random() < 0.7 else None
+    ask = InterruptNode(hfn, name="ask", output_name=("a", "b"), emit=emit)
+    if rng.random() < 0.4:
+        ask = ask.with_outputs(a="a2")
+        ufn = rt.make_function("use", uid, [{"n": "a2"}, {"n": "b"}])
+    use = FunctionNode(ufn, name="use", output_name="s", wait_for=emit)
+    g = Graph([ask, use], name="hreuse")
+    case = {"program": f"interrupt(a,b) emit={emit!r}, handler returns one shared dict; outputs {ask.outputs}"}
+    results = []
+    for j in range(3):
+        try:
+            r = asyncio.run(AsyncRunner().run(g, {"x": "run:x"}))
+            results.append((r.status.value, r.values))
+        except Exception as e:  # noqa: BLE001
+            results.append(("raised", repr(e)[:160]))
+    ctx.obs["runs_checked"] += 3
+    ctx.obs["handler_object_reuse_runs"] += 3
+    if any(r != results[0] for r in results[1:]) or results[0][0] != "completed":
+        ctx.violation("C18:results-differ:handler-object", f"three equal runs gave {core.short(results, 400)}", case)
+    elif answer != before:
+        ctx.violation("C18:handler-object-modified", f"the dict the handler returns was changed by the library: {before!r} -> {answer!r}", case)
+    ctx.case({"handler_reuse": True, "emit": bool(emit), "outs": ask.outputs}, True)
+
+
 def run(ctx):
     n = 240 if ctx.tier == "quick" else 12000
     core.WARM_P = 0.0
@@ -409,6 +449,8 @@ def run(ctx):
             override_of_inner_binding(ctx, i)
         elif i % 12 == 1:
             entry_variants(ctx, i)
+        elif i % 24 == 4:
+            handler_object_reuse(ctx, i)
         elif i % 3 == 2:
             concurrent_async(ctx, i)
         else:
